@@ -747,12 +747,12 @@ def evaluate__parse_json_functions(self: XPathFunction, context: ta.ContextType 
                 elif v.arity != 1:
                     msg = f'fallback function has arity {v.arity} (must be 1)'
                     raise self.error('XPTY0004', msg)
-                elif escape:
-                    msg = "cannot provide both 'fallback' and 'escape' parameters"
-                    raise self.error('FOJS0005', msg)
-
                 fallback = cast(Callable[..., str], v)
-                escape = False
+
+        if escape and fallback is not _fallback:
+            # whatever the order of the two options in the map
+            msg = "cannot provide both 'fallback' and 'escape' parameters"
+            raise self.error('FOJS0005', msg)
 
     def decode_value(value: ta.OneOrMore[ta.ItemType]) -> ta.OneOrEmpty[ta.ItemType]:
         if value is None:
@@ -1309,15 +1309,17 @@ def evaluate__json_to_xml(self: XPathFunction, context: ta.ContextType = None) \
                 escape = value
 
             elif key == 'fallback':
-                if escape:
-                    msg = "'fallback' function provided with escape=True"
-                    raise self.error('FOJS0005', msg)
                 if not isinstance(value, XPathFunction):
                     raise self.error('XPTY0004')
                 fallback = cast(Callable[..., str], value)
 
             else:
                 raise self.error('FOJS0005')
+
+        if escape and fallback is not _fallback:
+            # whatever the order of the two options in the map
+            msg = "'fallback' function provided with escape=True"
+            raise self.error('FOJS0005', msg)
 
         if duplicates is None:
             duplicates = 'reject' if validate else 'retain'
